@@ -176,15 +176,21 @@ func TestC09_Cluster(t *testing.T) {
 		for i := 0; i < out.info.excludedCreateByUpdate; i++ {
 			st.Exclude("update flag dropped from a request whose LockId is not a holder (known finding " + n09KeyCompaction + ")")
 		}
+		for i := 0; i < out.info.knownCompactedLog; i++ {
+			st.KnownHit(n09KeyCompactedLog)
+		}
 		for i := 0; i < out.info.knownDupFlush; i++ {
 			st.KnownHit(n09KeyDupFlush)
+		}
+		if out.info.excludedEmptyRotation > 0 {
+			st.Exclude("rotation of an empty append file skipped (known finding " + n09KeyWedged + ")")
 		}
 		if out.info.deferredCuts > 0 {
 			st.Exclude("cut deferred past the first record of a full transfer (known finding " + n09KeySkipAhead + ")")
 		}
 		st.Case(n09ClusterNontrivial(out.info), c.fingerprint(), n09ClusterClasses(out.info), func() interface{} { return c })
 		if out.err != nil {
-			if (out.key == n09KeySkipAhead || out.key == n09KeyDupFlush) && vIsKnown(out.key) {
+			if (out.key == n09KeySkipAhead || out.key == n09KeyDupFlush || out.key == n09KeyWedged) && vIsKnown(out.key) {
 				// residual of a listed finding that cannot be excluded by construction (the leader itself aborted
 				// the transfer); identified by its exact signature in the proxy log
 				st.KnownHit(out.key)
